@@ -42,7 +42,8 @@ def run(ck):
             for j in range(i, N):
                 a[i, j] = a[j, i] = rng.randint(-8, 8) / 4.0
         if deg:
-            a = numpy.diag([1.0, 1.0, 2.5]) if rng.random() < 0.5 else numpy.array([[2.0, 1.0, 0.0], [1.0, 2.0, 0.0], [0.0, 0.0, 3.0]])
+            a = rng.choice([numpy.diag([1.0, 1.0, 2.5]), numpy.array([[2.0, 1.0, 0.0], [1.0, 2.0, 0.0], [0.0, 0.0, 3.0]]),
+                            numpy.diag([2.0, 0.5, 1.25]), numpy.diag([0.0, 2.0, 2.0]), numpy.diag([3.0, 1.0, 1.0])])
         return a
 
     def general():
@@ -84,7 +85,7 @@ def run(ck):
         # operators that may define contexts (self-adjoint ones), created outside
         ctx_ids = []
         for k in range(rng.randint(1, 3)):
-            d = symm(deg=rng.random() < 0.25)
+            d = symm(deg=rng.random() < 0.4)
             o = Hamiltonian(data=d.copy()) if rng.random() < 0.5 else SelfAdjointOperator(data=d.copy())
             i = len(objs); objs[i] = o; ident[id(o)] = i; orig[i] = d.copy(); ctx_ids.append(i)
             emit("create %d %s" % (i, mat(d)), dump())
@@ -140,9 +141,17 @@ def run(ck):
                         continue   # do not overwrite an operator that defines an active context
                     name = type(objs[i]).__name__
                     d = general() if name == "Operator" else symm()
+                    was_protected = objs[i].is_basis_protected
                     objs[i].data = d.copy()
-                    written.add(i)
                     emit("write %d %s" % (i, mat(d)), dump())
+                    if was_protected or i in written:
+                        written.add(i)
+                    else:
+                        # the value was given in the current basis: its representation outside all contexts
+                        St = numpy.eye(N)
+                        for Sk in m.basis_transformations[1:]:
+                            St = St @ numpy.array(Sk, dtype=float)
+                        orig[i] = St @ d @ St.T
                 elif x < 0.77:
                     i, d = new_obj(rng.randrange(len(classes)), depth > 0)
                     if depth > 0:
